@@ -647,7 +647,7 @@ pub(crate) async fn do_commit_detached_transaction(
 
         let (mut manifest, mut indices) = match transaction.operation {
             Operation::Restore { version } => {
-                Transaction::restore_old_manifest(
+                let (mut manifest, indices) = Transaction::restore_old_manifest(
                     object_store,
                     commit_handler,
                     &dataset.base,
@@ -655,7 +655,11 @@ pub(crate) async fn do_commit_detached_transaction(
                     write_config,
                     &transaction_file,
                 )
-                .await?
+                .await?;
+                // Versions newer than the restored one may already have handed out
+                // row ids past the restored high-water mark; never hand them out again.
+                manifest.next_row_id = manifest.next_row_id.max(dataset.manifest.next_row_id);
+                (manifest, indices)
             }
             _ => transaction.build_manifest(
                 Some(dataset.manifest.as_ref()),
@@ -840,7 +844,7 @@ pub(crate) async fn commit_transaction(
         // Build an up-to-date manifest from the transaction and current manifest
         let (mut manifest, mut indices) = match transaction.operation {
             Operation::Restore { version } => {
-                Transaction::restore_old_manifest(
+                let (mut manifest, indices) = Transaction::restore_old_manifest(
                     object_store,
                     commit_handler,
                     &dataset.base,
@@ -848,7 +852,11 @@ pub(crate) async fn commit_transaction(
                     write_config,
                     &transaction_file,
                 )
-                .await?
+                .await?;
+                // Versions newer than the restored one may already have handed out
+                // row ids past the restored high-water mark; never hand them out again.
+                manifest.next_row_id = manifest.next_row_id.max(dataset.manifest.next_row_id);
+                (manifest, indices)
             }
             _ => transaction.build_manifest(
                 Some(dataset.manifest.as_ref()),
